@@ -571,6 +571,13 @@ class SyncObj(object):
         if self.__needLoadDumpFile:
             if self.__conf.fullDumpFile is not None and os.path.isfile(self.__conf.fullDumpFile):
                 self.__loadDumpFile(clearJournal=False)
+            if self.__conf.dynamicMembershipChange:
+                # Membership entries take effect when they are appended. Those of the own journal that are not
+                # applied yet (the snapshot covers the applied ones) were in effect before the restart.
+                for entry in self.__getEntries(self.__raftLastApplied + 1):
+                    clusterChangeRequest = self.__parseChangeClusterRequest(entry[0])
+                    if clusterChangeRequest is not None:
+                        self.__doChangeCluster(clusterChangeRequest)
             self.__needLoadDumpFile = False
 
         workTime = monotonicTime() - self.__startTime
